@@ -1,4 +1,4 @@
-\* thorough: real base 16, 2 levels, real 7-bit groups
+\* thorough: the real base 16 with 2 levels and real 7-bit term bytes: all 65536 (min,max); the costlier redundant invariants are left to the smaller configs
 CONSTANTS
   B = 16
   L = 2
@@ -7,5 +7,5 @@ CONSTANTS
   FE = 3
 SPECIFICATION SplitSpec
 CHECK_DEADLOCK FALSE
-INVARIANTS TypeOK LoopInv Disjoint ExactCover Chain SameAsSplit Bounded MatchIff ChainSound EnumCountOK EnumLinear
+INVARIANTS TypeOK LoopInv ExactCover Chain SameAsSplit EnumCountOK EnumLinear
 PROPERTY Termination
